@@ -83,7 +83,12 @@ func GenMultiServiceFile(r *R, idx int, o RuntimeOpts) *ir.Request {
 			for k := 1 + rh.Intn(3); k > 0; k-- {
 				s.Headers = append(s.Headers, draw(rh.P(3, 4)))
 			}
-			for _, m := range s.Methods {
+			for mi, m := range s.Methods {
+				// some routes (never the first of a service) declare NO method headers, right after a
+				// route with a required one: a stale per-route header list would show there
+				if mi > 0 && rh.P(1, 3) {
+					continue
+				}
 				if next < len(perm) && rh.P(1, 2) {
 					m.Headers = append(m.Headers, draw(rh.P(1, 2)))
 				}
